@@ -25,7 +25,7 @@ RULE = (
     "slices are consecutive, disjoint, each <= chunksize rows, their union is [0,n) exactly once; passes == 1, or 2 "
     "iff centres are generated; no request covers more than chunksize rows when n > chunksize; Parquet: row groups "
     "in order, none twice per pass, buffered rows < chunksize + largest row group. Non-trivial: n > chunksize "
-    "(more than one chunk). Generated centres also with a probe (20) smaller than the input (23, 25, 30 rows); the frame proxy exposes .index and logs whole-frame operations (reset_index, copy, ...). Frame source also on the virtual pool with W=2,3 (chunk sizes that are no multiple of W). Reader objects (frame, HDF5, FITS, Parquet) reused over passes: every history of <= 2 (3) of {peek, loop left after 2 chunks, full pass, probe} must be followed by a complete pass. Frame source without a chunk size (module default lowered to 4; n = 9, 13): requests stay within the default. Two readers of two sources alive side by side: every interleaving of their chunk requests, each delivers a pass over its own source. A redshift column next to the others (same passes). Distinct: the case tuple."
+    "(more than one chunk). Generated centres also with a probe (20) smaller than the input (23, 25, 30 rows); the frame proxy exposes .index and logs whole-frame operations (reset_index, copy, ...). Frame source also on the virtual pool with W=2,3 (chunk sizes that are no multiple of W). Reader objects (frame, HDF5, FITS, Parquet) reused over passes: every history of <= 2 (3) of {peek, loop left after 2 chunks, full pass, probe} must be followed by a complete pass. Frame source without a chunk size (module default lowered to 4; n = 9, 13): requests stay within the default. HDF5 data sets with a chunked storage layout (blocks of 4) and FITS tables in the second extension (n in {6,9,11} x chunksize {1,2,3,5}). The logging proxies pass the rest of the wrapped interface through (descriptive attributes free, anything else counted as a whole-column request). Two readers of two sources alive side by side: every interleaving of their chunk requests, each delivers a pass over its own source. A redshift column next to the others (same passes). Distinct: the case tuple."
 )
 ASSUMPTIONS = [
     "requests are observed at the library's seam to the source object (slicing of the frame / dataset / FITS column, "
@@ -62,6 +62,10 @@ def cases(tier, seed):
     # a redshift column next to the other ones (one more column per request, the same passes)
     for n, cs, src, mode in itertools.product((5, 9), (2, 3), ("frame", "hdf", "fits", "pq2"), ("create", "centres", "ids")):
         out.append(dict(n=n, chunksize=cs, source=src, mode=mode, with_z=True))
+    # HDF5 data sets stored in blocks of 4 records; a FITS file whose table is the second extension (the first one is a
+    # table of another length)
+    for n, cs, src, mode in itertools.product((6, 9, 11), (1, 2, 3, 5), ("hdfc", "fits2"), ("centres", "ids", "create")):
+        out.append(dict(n=n, chunksize=cs, source=src, mode=mode))
     # no chunk size given: the default applies (lowered to 4 for these cases)
     for n, mode in itertools.product((9, 13), ("centres", "ids", "create")):
         out.append(dict(n=n, chunksize=None, default_chunksize=4, source="frame", mode=mode))
@@ -172,6 +176,17 @@ class LogDataset:
     def shape(self):
         return self.ds.shape
 
+    _METADATA = ("dtype", "size", "ndim", "name", "nbytes", "attrs", "chunks", "maxshape", "len", "compression", "fillvalue")
+
+    def __getattr__(self, name):
+        # descriptive attributes cost no records; anything else of the data set's interface is counted as a request for
+        # the whole column (conservative) and passed on, so that code using it is judged by what it reads
+        if name.startswith("__"):
+            raise AttributeError(name)
+        if name not in self._METADATA:
+            self.log.req("whole-column", 0, len(self.ds), len(self.ds))
+        return getattr(self.ds, name)
+
     def __getitem__(self, key):
         n = len(self.ds)
         if isinstance(key, slice):
@@ -271,7 +286,7 @@ def run_reader(case):
     except Exception as e:
         return dict(nontrivial=True, key=case, status="violation", violations=[dict(
             signature=f"C18/reader/exception:{type(e).__name__}", what=f"reader raised {yawx.exc_name(e)} ({case})")])
-    tag = "parquet" if src.startswith("pq") else src
+    tag = "parquet" if src.startswith("pq") else src.rstrip("c2")
     if len(want) != n:
         v.append(dict(signature=f"C18/reader/{tag}/first-pass", what=f"a pass over a fresh reader delivers {len(want)} of {n} records"))
     elif len(got) != n or not np.array_equal(got, want):
@@ -327,7 +342,7 @@ def run_reader2(case):
     except Exception as e:
         return dict(nontrivial=True, key=case, status="violation", violations=[dict(
             signature=f"C18/reader2/exception:{type(e).__name__}", what=f"two readers side by side raised {yawx.exc_name(e)} ({case})")])
-    tag = "parquet" if src.startswith("pq") else src
+    tag = "parquet" if src.startswith("pq") else src.rstrip("c2")
     for name in "ab":
         g = np.concatenate(got[name])
         if not ended[name] or len(g) != len(want[name]) or not np.array_equal(g, want[name]):
@@ -425,7 +440,7 @@ def run_case(case):
             cat = Catalog.from_random(d + "/cat", gen, n, **rk)
         else:
             path = write_file(src, cols, d, n)
-            if src == "hdf":
+            if src in ("hdf", "hdfc"):
                 import h5py
 
                 real = h5py.File
@@ -437,12 +452,29 @@ def run_case(case):
                     def __getitem__(self, name):
                         return LogDataset(self.f[name], log)
 
+                    def __contains__(self, name):
+                        return name in self.f
+
+                    def __iter__(self):
+                        return iter(self.f)
+
+                    def __enter__(self):
+                        return self
+
+                    def __exit__(self, *a):
+                        self.f.close()
+
+                    def __getattr__(self, name):  # keys(), attrs, filename, ...
+                        return getattr(self.f, name)
+
                     def close(self):
                         self.f.close()
 
                 R.h5py.File = LogFile
                 restore.append(lambda: setattr(R.h5py, "File", real))
-            elif src == "fits":
+            elif src in ("fits", "fits2"):
+                if src == "fits2":
+                    kw["hdu"] = 2
                 real_open = R.fits.open
 
                 class LogRec:
@@ -452,12 +484,23 @@ def run_case(case):
                     def __len__(self):
                         return len(self.data)
 
+                    def __getattr__(self, name):  # names, dtype, columns, shape: descriptive
+                        if name.startswith("__"):
+                            raise AttributeError(name)
+                        return getattr(self.data, name)
+
                     def __getitem__(self, name):
                         return LogDataset(self.data[name], log)
 
                 class LogHDU:
                     def __init__(self, hdu):
+                        self.hdu = hdu
                         self.data = LogRec(hdu.data)
+
+                    def __getattr__(self, name):  # header, columns, name, ...
+                        if name.startswith("__"):
+                            raise AttributeError(name)
+                        return getattr(self.hdu, name)
 
                 class LogHDUList:
                     def __init__(self, hl):
@@ -465,6 +508,20 @@ def run_case(case):
 
                     def __getitem__(self, i):
                         return LogHDU(self.hl[i])
+
+                    def __len__(self):
+                        return len(self.hl)
+
+                    def __enter__(self):
+                        return self
+
+                    def __exit__(self, *a):
+                        self.hl.close()
+
+                    def __getattr__(self, name):  # info(), filename(), ...
+                        if name.startswith("__"):
+                            raise AttributeError(name)
+                        return getattr(self.hl, name)
 
                     def close(self):
                         self.hl.close()
@@ -509,7 +566,7 @@ def run_case(case):
         restore_default()
     if cs is None:  # the module default (lowered for this case) is the configured chunk size
         cs = case["default_chunksize"]
-    tag = "parquet" if src.startswith("pq") else src
+    tag = "parquet" if src.startswith("pq") else src.rstrip("c2")
     total = sum(cat.get_num_records())
     if total != n:
         v.append(dict(signature=f"C18/{tag}/records", what=f"{total} records stored of {n}"))
@@ -535,18 +592,24 @@ def run_case(case):
 
 
 def write_file(src, cols, d, n):
-    if src == "hdf":
+    if src in ("hdf", "hdfc"):
         import h5py
 
         p = os.path.join(d, "in.hdf5")
         with h5py.File(p, "w") as f:
             for k, val in cols.items():
-                f.create_dataset(k, data=val)
-    elif src == "fits":
+                # hdfc: chunked storage layout (blocks of 4 records), as written by most survey pipelines
+                f.create_dataset(k, data=val, **(dict(chunks=(min(4, n),)) if src == "hdfc" else {}))
+    elif src in ("fits", "fits2"):
+        from astropy.io import fits as afits
         from astropy.table import Table
 
         p = os.path.join(d, "in.fits")
-        Table(cols).write(p)
+        if src == "fits":
+            Table(cols).write(p)
+        else:  # the table is the second extension, the first one is another table of another length
+            other = Table({k: np.concatenate([val, val])[: n + 3] for k, val in cols.items()})
+            afits.HDUList([afits.PrimaryHDU(), afits.table_to_hdu(other), afits.table_to_hdu(Table(cols))]).writeto(p)
     else:
         import pyarrow as pa
         from pyarrow import parquet
